@@ -869,7 +869,7 @@ class Curve(SplineGeometry):
         stop = self.knotvector[-(self.degree+1)]
 
         # Set delta value
-        self.delta = (stop - start) / float(value)
+        self.delta = 1.0 / float(value)  # delta is a fraction of the domain, whatever its length
 
     @property
     def delta(self):
@@ -1510,7 +1510,7 @@ class Surface(SplineGeometry):
         stop_u = self.knotvector_u[-(self.degree_u+1)]
 
         # Set delta values
-        self.delta_u = (stop_u - start_u) / float(value)
+        self.delta_u = 1.0 / float(value)  # delta is a fraction of the domain, whatever its length
 
     @property
     def sample_size_v(self):
@@ -1542,7 +1542,7 @@ class Surface(SplineGeometry):
         stop_v = self.knotvector_v[-(self.degree_v+1)]
 
         # Set delta values
-        self.delta_v = (stop_v - start_v) / float(value)
+        self.delta_v = 1.0 / float(value)
 
     @property
     def sample_size(self):
@@ -1581,8 +1581,8 @@ class Surface(SplineGeometry):
         stop_v = self.knotvector_v[-(self.degree_v+1)]
 
         # Set delta values
-        self.delta_u = (stop_u - start_u) / float(value)
-        self.delta_v = (stop_v - start_v) / float(value)
+        self.delta_u = 1.0 / float(value)  # delta is a fraction of the domain, whatever its length
+        self.delta_v = 1.0 / float(value)
 
     @property
     def delta_u(self):
@@ -2560,7 +2560,7 @@ class Volume(SplineGeometry):
         stop_u = self.knotvector_u[-(self.degree_u + 1)]
 
         # Set delta values
-        self.delta_u = (stop_u - start_u) / float(value)
+        self.delta_u = 1.0 / float(value)  # delta is a fraction of the domain, whatever its length
 
     @property
     def sample_size_v(self):
@@ -2592,7 +2592,7 @@ class Volume(SplineGeometry):
         stop_v = self.knotvector_v[-(self.degree_v + 1)]
 
         # Set delta values
-        self.delta_v = (stop_v - start_v) / float(value)
+        self.delta_v = 1.0 / float(value)
 
     @property
     def sample_size_w(self):
@@ -2624,7 +2624,7 @@ class Volume(SplineGeometry):
         stop_w = self.knotvector_w[-(self.degree_w + 1)]
 
         # Set delta values
-        self.delta_w = (stop_w - start_w) / float(value)
+        self.delta_w = 1.0 / float(value)
 
     @property
     def sample_size(self):
@@ -2667,9 +2667,9 @@ class Volume(SplineGeometry):
         stop_w = self.knotvector_w[-(self.degree_w + 1)]
 
         # Set delta values
-        self.delta_u = (stop_u - start_u) / float(value)
-        self.delta_v = (stop_v - start_v) / float(value)
-        self.delta_w = (stop_w - start_w) / float(value)
+        self.delta_u = 1.0 / float(value)  # delta is a fraction of the domain, whatever its length
+        self.delta_v = 1.0 / float(value)
+        self.delta_w = 1.0 / float(value)
 
     @property
     def delta_u(self):
